@@ -266,7 +266,7 @@ where T: Ring + Bridge, for<'x> &'x T: RingOps<T> {
     let (Some(mut a), Some(b)) = (lib(&am), lib(&bm)) else { ctx.inconclusive("generator_unrepresentable"); return };
     hist.push(format!("a = {:?}, b = {:?}", am.iter().map(|(k, c)| (k, c.show())).collect::<Vec<_>>(), bm.iter().map(|(k, c)| (k, c.show())).collect::<Vec<_>>()));
     for _ in 0..rng.urange(3, 12) {
-        let op = rng.below(5);
+        let op = rng.below(9);
         let s = T::gen(rng, Mag::Small);
         let Some(sl) = T::try_from_o(&s) else { return };
         hist.push(format!("op {op} (scalar {})", s.show()));
@@ -276,10 +276,35 @@ where T: Ring + Bridge, for<'x> &'x T: RingOps<T> {
             1 => { for (k, c) in &bm { let cur = nm.remove(k).unwrap_or(T::O::o0()); let v = cur.sub(c); if !v.is0() { nm.insert(*k, v); } } }
             2 => { nm = nm.into_iter().map(|(k, c)| (k, c.mul(&s))).filter(|(_, c)| !c.is0()).collect() }
             3 => { nm = nm.into_iter().map(|(k, c)| (k, c.neg())).collect() }
-            _ => { nm = BTreeMap::new() } // a - a
+            4 => { nm = BTreeMap::new() } // a - a
+            5 => {
+                // bilinear extension of a NON-injective product of generators: the group algebra of Z/3
+                let mut r: BTreeMap<i32, T::O> = BTreeMap::new();
+                for (k, c) in &am { for (l, d) in &bm { let key = (k + l).rem_euclid(3); let cur = r.remove(&key).unwrap_or(T::O::o0()); let v = cur.add(&c.mul(d)); if !v.is0() { r.insert(key, v); } } }
+                nm = r;
+            }
+            6 => {
+                // linear extension of the non-injective relabelling <k> -> <|k|>
+                let mut r: BTreeMap<i32, T::O> = BTreeMap::new();
+                for (k, c) in &am { let key = k.abs(); let cur = r.remove(&key).unwrap_or(T::O::o0()); let v = cur.add(c); if !v.is0() { r.insert(key, v); } }
+                nm = r;
+            }
+            7 => { nm = nm.into_iter().filter(|(k, _)| *k >= 0).collect() }
+            _ => {
+                // linear extension of <k> -> <k> + s <k+1>
+                let mut r: BTreeMap<i32, T::O> = BTreeMap::new();
+                for (k, c) in &am { for (key, v) in [(*k, c.clone()), (*k + 1, c.mul(&s))] { let cur = r.remove(&key).unwrap_or(T::O::o0()); let w = cur.add(&v); if !w.is0() { r.insert(key, w); } } }
+                nm = r;
+            }
         }
         let (a2, b2) = (a.clone(), b.clone());
-        let r = guarded(move || match op { 0 => &a2 + &b2, 1 => { let mut x = a2.clone(); x -= &b2; x } 2 => { let mut x = a2.clone(); x *= &sl; x } 3 => -a2, _ => &a2 - &a2 });
+        let r = guarded(move || match op {
+            0 => &a2 + &b2, 1 => { let mut x = a2.clone(); x -= &b2; x } 2 => { let mut x = a2.clone(); x *= &sl; x } 3 => -a2, 4 => &a2 - &a2,
+            5 => a2.combine(&b2, |x, y| Free((x.0 + y.0).rem_euclid(3))),
+            6 => a2.map_gens(|x| Free(x.0.abs())),
+            7 => a2.filter_gens(|x| x.0 >= 0),
+            _ => a2.apply(|x| Lc::from_iter([(Free(x.0), T::one()), (Free(x.0 + 1), sl.clone())])),
+        });
         match r {
             Ok(x) => {
                 let got: BTreeMap<i32, T::O> = x.iter().map(|(g, c)| (g.0, c.to_o())).collect();
@@ -288,6 +313,7 @@ where T: Ring + Bridge, for<'x> &'x T: RingOps<T> {
                     ctx.violation(&format!("C16/{name}/op{op}"), &format!("linear combination after op {op}: stored zero = {zero_stored}, nterms = {}, expected {} terms, == with the rebuilt value = {}", x.nterms(), nm.len(), lib(&nm).map(|y| y == x).unwrap_or(true)), json!({"type": name, "history": hist}));
                     return
                 }
+                for k in -3..=4 { if x.coeff(&Free(k)).to_o() != nm.get(&k).cloned().unwrap_or(T::O::o0()) { ctx.violation(&format!("C16/{name}/coeff"), &format!("coeff(<{k}>) differs from the linear combination after op {op}"), json!({"type": name, "history": hist})); return } }
                 a = x; am = nm;
             }
             Err(e) => { if T::bounded() && e.is_overflow() { ctx.inconclusive("overflow_machine_int"); return } ctx.violation(&format!("C16/{name}/panic"), &format!("panicked: {}", e.brief()), json!({"type": name, "history": hist})); return }
